@@ -33,7 +33,8 @@ def rec_term(r):
     if r["k"] == "ack":
         if any(f[0] < 0 for f in r.get("ackfr") or []):
             return "H 99 0 0 0 0 0"     # acknowledges something that is not a handshake record of the peer
-        return "A %d %s" % (r["e"], clist([frag_term(f) for f in (r.get("ackfr") or [])]))
+        # compared as the SET of acknowledged fragments (the model keeps it sorted, duplicate-free)
+        return "A %d %s" % (r["e"], clist([frag_term(f) for f in sorted(set(tuple(f) for f in (r.get("ackfr") or [])))]))
     return "H 98 0 0 0 0 0"             # alert / application data / unreadable: never predicted by the model
 
 
